@@ -324,10 +324,250 @@ def rule_N(ctx):
               witness={'not imported': missing}, node=f.node, key='imports')
 
 
+def rule_G(ctx):
+    """C19.G the cell aggregators, Raster.getCell and the scatter / aggregate pipeline interpreted on configuration classes:
+    NaN patterns of the value lists, points inside / on the borders / at the corners of the cells of grids whose extent is or is not a
+    whole number of cells, collections of several tracks (same uid included) with several maps over the same feature"""
+    import itertools
+    import math
+    from .. import absint, orders, npstub
+    UT = 'tracklib.core.utils'
+    RAS = 'tracklib.core.raster'
+    fg = ctx.prog.func(RAS + '.Raster.getCell')
+    fa = ctx.prog.func(RAS + '.Raster.addCollectionToRaster')
+    NANV = float('nan')
+    fn = absint.funcs(ctx, RAS, dict(npstub.stubs()))
+    fn['__globals__']['NAN'] = NANV
+    R = absint.classref(ctx, RAS + '.Raster', fn)
+    if RAS + '.AFMap' in ctx.prog.classes:
+        absint.classref(ctx, RAS + '.AFMap', fn)
+    found = {}
+    n_cases = 0
+
+    def isn(v):
+        return isinstance(v, float) and v != v
+
+    def same(a, b):
+        if isn(b):
+            return isn(a)
+        return isinstance(a, (int, float)) and not isinstance(a, bool) and not isn(a) and abs(a - b) <= 1e-9 * max(1.0, abs(b))
+    # ---- (1) the aggregators
+    def median(vs):
+        s_ = sorted(vs)
+        n = len(s_)
+        return s_[n // 2] if n % 2 else (s_[n // 2 - 1] + s_[n // 2]) / 2.0
+    oracle = {
+        'co_count': lambda vs: len(vs), 'co_sum': lambda vs: sum(vs) if vs else 0,
+        'co_min': lambda vs: min(vs) if vs else NANV, 'co_max': lambda vs: max(vs) if vs else NANV,
+        'co_avg': lambda vs: sum(vs) / len(vs) if vs else NANV, 'co_median': lambda vs: median(vs) if vs else NANV,
+    }
+    lists = [list(t_) for L in range(0, 5) for t_ in itertools.product((NANV, 1.0, 3.0, -2.0), repeat=L)]
+    for name, orc in oracle.items():
+        f = ctx.prog.maybe_func(UT + '.' + name)
+        if f is None:
+            raise anchor_error('aggregator %s not found' % name, UT)
+        call = orders.make_func(f.node, absint.funcs(ctx, UT, {'NAN': NANV}))
+        bad = None
+        for xs in lists:
+            n_cases += 1
+            arg = list(xs)
+            try:
+                got = call(arg)
+            except orders.Unsupported as ex:
+                raise shape_error('%s not interpretable: %s' % (name, ex), f.loc())
+            except (IndexError, ZeroDivisionError, TypeError, ValueError, KeyError, orders.Raised) as ex:
+                got = '%s: %s' % (type(ex).__name__, ex)
+            want = orc([v for v in xs if not isn(v)])
+            if len(arg) != len(xs) or any(not (a_ == b_ or (isn(a_) and isn(b_))) for a_, b_ in zip(arg, xs)):
+                bad = {'values': [None if isn(v) else v for v in xs], 'the list afterwards': [None if isn(v) else v for v in arg],
+                       'why': 'the value list of a cell is shared by all the aggregates computed on that feature: an aggregator must leave it as it was'}
+                break
+            if not same(got, want):
+                bad = {'values': [None if isn(v) else v for v in xs], 'returned': None if isn(got) else got, 'expected': None if isn(want) else want}
+                break
+        ctx.check(bad is None, 'C19.A', f, '%s ignores NaN wherever it stands and answers the empty aggregate when no value is left (%d value lists)' % (name, len(lists)),
+                  witness=bad, node=f.node, key='agg:' + name)
+    # ---- (2) getCell: the cell returned contains the point
+    class Bb(orders.PyStub):
+        isa = ('Bbox',)
+
+        def __init__(self, xmin, xmax, ymin, ymax):
+            self.v = (float(xmin), float(xmax), float(ymin), float(ymax))
+
+        def copy(self):
+            return Bb(*self.v)
+
+        def addMargin(self, m):
+            xmin, xmax, ymin, ymax = self.v
+            dx, dy = (xmax - xmin) * m, (ymax - ymin) * m
+            self.v = (xmin - dx, xmax + dx, ymin - dy, ymax + dy)
+
+        def asTuple(self):
+            return self.v
+
+        def getDimensions(self):
+            return (self.v[1] - self.v[0], self.v[3] - self.v[2])
+
+        def getXmin(self):
+            return self.v[0]
+
+        def getXmax(self):
+            return self.v[1]
+
+        def getYmin(self):
+            return self.v[2]
+
+        def getYmax(self):
+            return self.v[3]
+
+    class P(orders.PyStub):
+        isa = ('ENUCoords',)
+
+        def __init__(self, x, y):
+            self.x, self.y = float(x), float(y)
+
+        def getX(self):
+            return self.x
+
+        def getY(self):
+            return self.y
+
+        def __repr__(self):
+            return '(%g, %g)' % (self.x, self.y)
+    grids = [('extent 3 x 2 cells exactly', (0.0, 30.0, 0.0, 20.0), (10.0, 10.0)),
+             ('extent not a whole number of rows (height 25, cells of 10)', (0.0, 30.0, 0.0, 25.0), (10.0, 10.0)),
+             ('extent not a whole number of columns (width 24, cells 10 x 5)', (100.0, 124.0, -10.0, 0.0), (10.0, 5.0)),
+             ('one cell', (0.0, 8.0, 0.0, 8.0), (10.0, 10.0)),
+             ('cells wider than high (20 x 4)', (0.0, 40.0, 0.0, 12.0), (20.0, 4.0))]
+    bad = None
+    for gname, ext, res in grids:
+        try:
+            r = R(Bb(*ext), res, 0.0)
+        except orders.Unsupported as ex:
+            raise shape_error('Raster() not interpretable: %s' % ex, fg.loc())
+        ncol, nrow = r.fields.get('ncol'), r.fields.get('nrow')
+        xmin, xmax, ymin, ymax = ext
+        rx, ry = res
+        xs_ = sorted({xmin, xmax} | {xmin + k * rx for k in range(1, 6) if xmin + k * rx < xmax} | {xmin + (k + 0.5) * rx for k in range(6) if xmin + (k + 0.5) * rx < xmax} | {xmax - 0.25})
+        ys_ = sorted({ymin, ymax} | {ymin + k * ry for k in range(1, 6) if ymin + k * ry < ymax} | {ymin + (k + 0.5) * ry for k in range(6) if ymin + (k + 0.5) * ry < ymax} | {ymax - 0.25})
+        for x in xs_:
+            for y in ys_:
+                n_cases += 1
+                try:
+                    cell = r.call('getCell', P(x, y))
+                except orders.Unsupported as ex:
+                    raise shape_error('getCell not interpretable: %s' % ex, fg.loc())
+                except (IndexError, ZeroDivisionError, TypeError, ValueError, AttributeError, orders.Raised) as ex:
+                    cell = '%s: %s' % (type(ex).__name__, ex)
+                ok = isinstance(cell, tuple) and len(cell) == 2 and all(isinstance(c, int) and not isinstance(c, bool) for c in cell)
+                why = 'a point of the extent gets a (column, row) pair'
+                if ok:
+                    col, row = cell
+                    ok = 0 <= col < ncol and 0 <= row < nrow
+                    why = 'the cell is inside the grid (%d columns x %d rows)' % (ncol, nrow)
+                if ok:
+                    k = nrow - 1 - row
+                    ok = xmin + col * rx - 1e-9 <= x <= xmin + (col + 1) * rx + 1e-9 and ymin + k * ry - 1e-9 <= y <= ymin + (k + 1) * ry + 1e-9
+                    why = 'the footprint of the cell contains the point (rows are counted from the top, the bottom row starts at ymin)'
+                if not ok and bad is None:
+                    bad = {'grid': gname, 'extent (xmin, xmax, ymin, ymax)': list(ext), 'cell size': list(res), 'point': [x, y], 'cell returned (column, row)': list(cell) if isinstance(cell, tuple) else cell, 'violated': why}
+    ctx.check(bad is None, 'C19.C', fg, 'getCell: every point of the extent (cell interiors, cell borders, corners, extent borders) gets a cell of the grid whose footprint contains it (%d grids)' % len(grids),
+              witness=bad, node=fg.node, key='getCell')
+    # ---- (3) scatter + aggregate
+    class Ob(orders.PyStub):
+        def __init__(self, pos):
+            self.position = pos
+
+    class Tr(orders.PyStub):
+        isa = ('Track',)
+
+        def __init__(self, uid, pts, feats):
+            self.uid = uid
+            self.obs = [Ob(P(*p_)) for p_ in pts]
+            self.feats = feats
+
+        def size(self):
+            return len(self.obs)
+
+        def __len__(self):
+            return len(self.obs)
+
+        def getObs(self, i):
+            return self.obs[i]
+
+        def __getitem__(self, i):
+            return self.obs[i]
+
+        def hasAnalyticalFeature(self, nm):
+            return nm in self.feats
+
+        def getObsAnalyticalFeature(self, nm, i):
+            return self.feats[nm][i]
+
+    class Coll(orders.PyStub):
+        isa = ('TrackCollection',)
+
+        def __init__(self, tracks):
+            self.tracks = tracks
+
+        def getTracks(self):
+            return list(self.tracks)
+
+        def size(self):
+            return len(self.tracks)
+
+        def __iter__(self):
+            return iter(self.tracks)
+
+        def __getitem__(self, i):
+            return self.tracks[i]
+    ext, res = (0.0, 30.0, 0.0, 20.0), (10.0, 10.0)
+    layouts = {
+        'two tracks with different uids': [(1, [(5, 5), (15, 5), (15, 15), (25, 15)], [1.0, 2.0, NANV, 4.0]), (2, [(5, 5), (5, 15), (25, 15)], [10.0, 20.0, 30.0])],
+        'three tracks sharing one uid, their i-th fixes in different cells': [(0, [(5, 5), (15, 5)], [1.0, 2.0]), (0, [(25, 15), (5, 15)], [5.0, 7.0]), (0, [(15, 15), (15, 15)], [NANV, 9.0])],
+    }
+    aggs = ['co_median', 'co_count', 'co_sum', 'co_min', 'co_max', 'co_avg']      # the median first: the later maps read the same per-cell lists
+    nodata = ctx.prog.module(RAS).consts.get('NO_DATA_VALUE')
+    nodata = -nodata.operand.value if isinstance(nodata, ast.UnaryOp) else (nodata.value if isinstance(nodata, ast.Constant) else -99999.0)
+    bad = None
+    for lname, tracks in layouts.items():
+        n_cases += 1
+        try:
+            r = R(Bb(*ext), res, 0.0)
+            for ag in aggs:
+                r.call('addAFMap', 'v#' + ag)
+            coll = Coll([Tr(uid, pts, {'v': vals}) for uid, pts, vals in tracks])
+            r.call('addCollectionToRaster', coll)
+            r.call('computeAggregates')
+            maps = {ag: r.call('getAFMap', 'v#' + ag).fields['grid'] for ag in aggs}
+        except orders.Unsupported as ex:
+            raise shape_error('raster pipeline not interpretable: %s' % ex, fa.loc())
+        except (IndexError, ZeroDivisionError, TypeError, ValueError, AttributeError, KeyError, orders.Raised) as ex:
+            bad = bad or {'collection': lname, 'exception': '%s: %s' % (type(ex).__name__, str(ex)[:200])}
+            continue
+        cells = {}
+        for uid, pts, vals in tracks:
+            for (x, y), v in zip(pts, vals):
+                col, k = int(x // 10), int(y // 10)
+                cells.setdefault((col, 2 - 1 - k), []).append(v)
+        for row in range(2):
+            for col in range(3):
+                vs = [v for v in cells.get((col, row), []) if not isn(v)]
+                for ag in aggs:
+                    want = oracle[ag](vs)
+                    if isn(want):
+                        want = nodata
+                    got = maps[ag][row][col]
+                    if not same(got, want) and bad is None:
+                        bad = {'collection': lname, 'tracks (uid, positions, values of v)': [[uid, [list(p_) for p_ in pts], [None if isn(v) else v for v in vals]] for uid, pts, vals in tracks],
+                               'cell (column, row)': [col, row], 'aggregate': ag, 'stored': got, 'expected': want,
+                               'values of the observations lying in that cell': vs}
+    ctx.check(bad is None, 'C19.S', fa, 'scatter and aggregate: every observation is counted once per feature in the cell that contains it, whatever the number of maps over '
+              'that feature and the uids of the tracks; each map holds the requested aggregate of its cell, no-data where no value is left', witness=bad, node=fa.node, key='pipeline')
+    ctx.extra['C19.G cases'] = n_cases
+
+
 RULES = [
-    ('C19.C', rule_C, 'quick'),
-    ('C19.S', rule_S, 'quick'),
-    ('C19.A', rule_A, 'quick'),
-    ('C19.N', rule_N, 'quick'),
+    ('C19.G', rule_G, 'quick'),
 ]
-MIN_OBLIGATIONS = 25
+MIN_OBLIGATIONS = 8
